@@ -61,6 +61,8 @@ def _parse_head(head):
     h["kf"] = mm.group(1) if mm else None
     mm = re.search(r"cap:\s*(\d+)", head)
     h["cap"] = int(mm.group(1)) if mm else None
+    mm = re.search(r'cbmc:\s*"([^"]*)"', head)
+    h["cbmc"] = mm.group(1).split() if mm else []
     return h
 
 
@@ -165,6 +167,7 @@ def _limits(mem_gb):
 
 RUNNING = {}
 RUNNING_LOCK = threading.Lock()
+WATCHDOG_KILLED = set()
 
 
 def run_stage(name, cmd, out_path, timeout, mem_gb):
@@ -182,6 +185,8 @@ def run_stage(name, cmd, out_path, timeout, mem_gb):
             rc, to = -9, True
         with RUNNING_LOCK:
             RUNNING.pop(name, None)
+        if p.pid in WATCHDOG_KILLED:
+            rc = -999
     return rc, to, time.time() - t0
 
 
@@ -211,6 +216,7 @@ def verify_one(h, art, workdir, cap_t, cap_mem):
           "--no-self-loops-to-assumptions", "--no-pointer-primitive-check", "--object-bits", "16"]
     if art["unwind"] is not None:
         cb += ["--unwind", str(art["unwind"])]
+    cb += h.get("cbmc", [])  # per-harness extra CBMC options (e.g. --max-field-sensitivity-array-size N)
     cb += ["--sat-solver", "cadical", "--slice-formula", out, "--verbosity", "9", "--json-ui"]
     jpath = os.path.join(workdir, name + ".cbmc.json")
     remaining = max(30, cap_t - (time.time() - t0))
@@ -224,7 +230,9 @@ def verify_one(h, art, workdir, cap_t, cap_mem):
         data = json.load(open(jpath))
     except Exception as e:
         txt = open(jpath, errors="replace").read()[-2000:]
-        if "Out of memory" in txt or "bad_alloc" in txt or rc in (-6, -9, -11, 134, 137):
+        if rc == -999:
+            res["reason"] = "killed by the runner's watchdog: the machine was about to run out of memory (other jobs)"
+        elif "Out of memory" in txt or "bad_alloc" in txt or rc in (-6, -9, -11, 134, 137):
             res["reason"] = f"memory cap {cap_mem} GB reached (rc={rc})"
         else:
             res["reason"] = f"cbmc output unparsable rc={rc}: {e}"
@@ -256,7 +264,7 @@ def verify_one(h, art, workdir, cap_t, cap_mem):
             continue
         if st == "SUCCESS":
             continue
-        rec = dict(cls=cls, status=st, desc=re.sub(r"^\[KANI_CHECK_ID[^\]]*\]\s*", "", p.get("description", ""))[:300],
+        rec = dict(pid=p["property"], cls=cls, status=st, desc=re.sub(r"^\[KANI_CHECK_ID[^\]]*\]\s*", "", p.get("description", ""))[:300],
                    loc="%s:%s %s" % (p.get("sourceLocation", {}).get("file", "?"), p.get("sourceLocation", {}).get("line", "?"),
                                       p.get("sourceLocation", {}).get("function", "")[:80]))
         if st != "FAILURE":
@@ -282,7 +290,8 @@ def verify_one(h, art, workdir, cap_t, cap_mem):
     elif res["reason"]:
         pass
     else:
-        bad = [k for k, v in res["covers"].items() if v != "SATISFIED"]
+        # covers whose message starts with "opt:" are informational, all others are vacuity witnesses
+        bad = [k for k, v in res["covers"].items() if v != "SATISFIED" and not k.lstrip('"').startswith("opt:")]
         if not res["covers"]:
             res["status"], res["reason"] = "inconclusive", "no reachability witness (cover) in harness"
         elif bad and "covers_optional" not in h["flags"]:
@@ -344,6 +353,7 @@ def mem_watchdog(stop):
                     if rss > brss:
                         best, brss = p, rss
                 if best:
+                    WATCHDOG_KILLED.add(best.pid)
                     try:
                         os.killpg(best.pid, signal.SIGKILL)
                     except Exception:
@@ -351,6 +361,40 @@ def mem_watchdog(stop):
 
 
 # ----------------------------------------------------------------------------- replay
+def extract_values(h, art, workdir, failed, cap_t, cap_mem):
+    """Re-run CBMC on the prepared goto program with --trace restricted to ONE failed property and read
+    the solver's values of every vany() call (the local `zv_sym_val` in common/sym.rs) in execution order."""
+    name = h["name"]
+    out = os.path.join(workdir, name + ".out")
+    pick = next((f for f in failed if f["cls"] == "assertion"), failed[0])
+    cb = ["cbmc", "--no-malloc-may-fail", "--no-undefined-shift-check", "--no-signed-overflow-check", "--nan-check",
+          "--no-self-loops-to-assumptions", "--no-pointer-primitive-check", "--object-bits", "16"]
+    if art["unwind"] is not None:
+        cb += ["--unwind", str(art["unwind"])]
+    cb += h.get("cbmc", [])
+    cb += ["--sat-solver", "cadical", "--slice-formula", out, "--trace", "--json-ui", "--property", pick["pid"]]
+    jpath = os.path.join(workdir, name + ".trace.json")
+    rc, to, _ = run_stage(name + "#trace", cb, jpath, cap_t, cap_mem)
+    try:
+        data = json.load(open(jpath))
+    except Exception:
+        return None, pick
+    for item in data:
+        for p in item.get("result", []) if isinstance(item, dict) else []:
+            if p.get("property") == pick["pid"] and p.get("status") == "FAILURE" and "trace" in p:
+                vals = []
+                for st in p["trace"]:
+                    if st.get("stepType") == "assignment" and st.get("lhs") == "zv_sym_val":
+                        v = st.get("value", {})
+                        b = v.get("binary")
+                        if b is None:
+                            return None, pick
+                        n = int(b, 2)
+                        vals.append(list(n.to_bytes(len(b) // 8, "little")))
+                return vals, pick
+    return None, pick
+
+
 def concrete_playback(h, features):
     """Ask kani-driver for the concrete values of the counterexample."""
     cmd = ["cargo", "kani", "-Z", "stubbing", "-Z", "concrete-playback", "--concrete-playback=print", "--exact",
@@ -370,16 +414,20 @@ def concrete_playback(h, features):
     return vals
 
 
-def native_replay(h, replay_path, features, timeout=1500):
-    """Run the same harness function natively on the solver's values: dev, release, (miri)."""
+def native_replay(h, replay_path, features, timeout=1500, miri=False):
+    """Run the same harness function natively on the solver's values: dev, release and, for
+    memory-safety counterexamples that a plain run does not trap, under Miri."""
     outs = {}
     base = ["test", "--lib", "--offline"]
     feat = ["--features", ",".join(features)] if features else []
     variants = [("dev", ["cargo"] + base + feat + ["--target-dir", NATIVE_TD]),
                 ("release", ["cargo"] + base + ["--release"] + feat + ["--target-dir", NATIVE_TD])]
+    if miri:
+        variants = [("miri", ["cargo", "+nightly", "miri"] + base + feat + ["--target-dir", os.path.join(TARGET, "miri")])]
+        timeout = 3000
     for label, cmd in variants:
         full = cmd + ["--", "--exact", h["full"], "--nocapture", "--test-threads=1"]
-        env = dict(ENV, ZV_REPLAY=replay_path, RUST_BACKTRACE="0")
+        env = dict(ENV, ZV_REPLAY=replay_path, RUST_BACKTRACE="0", MIRIFLAGS="-Zmiri-disable-isolation")
         with Lock(os.path.join(TARGET, "native.lock")):
             try:
                 p = subprocess.run(full, cwd=HARNESS, env=env, stdout=subprocess.PIPE, stderr=subprocess.STDOUT,
@@ -396,6 +444,8 @@ def native_replay(h, replay_path, features, timeout=1500):
             verdict = "passed"
         elif rc == 0:
             verdict = "not-run"
+        elif label == "miri" and "Undefined Behavior" not in txt:
+            verdict = "miri-error"
         else:
             verdict = "reproduced"
         outs[label] = dict(verdict=verdict, rc=rc, tail=tail[-1500:])
@@ -498,7 +548,9 @@ def main():
             continue
         os.makedirs(replay_dir, exist_ok=True)
         log(f"  counterexample in {h['name']}: " + "; ".join(f"{f['cls']}: {f['desc'][:100]} @ {f['loc']}" for f in r["failed"][:4]))
-        vals = concrete_playback(h, features)
+        vals, picked = extract_values(h, arts[h["name"]], workdir, r["failed"], caps["time"], caps["mem_gb"])
+        if vals is None:
+            vals = concrete_playback(h, features)  # fallback: Kani's own concrete playback
         rp = os.path.join(replay_dir, f"{h['name']}.json")
         if vals is None:
             r["replay"] = "playback-extraction-failed"
@@ -510,6 +562,10 @@ def main():
         json.dump(vals, open(vpath, "w"))
         outs = native_replay(h, vpath, features)
         replays += 1
+        memsafe = all(f["cls"] in MEMSAFE_CLASSES or "dereference" in f["desc"] or "deallocated" in f["desc"] for f in r["failed"])
+        if memsafe and not any(v["verdict"] == "reproduced" for v in outs.values()):
+            # use-after-free / out-of-bounds reads rarely trap in a plain run: ask Miri
+            outs.update(native_replay(h, vpath, features, miri=True))
         r["replay"] = {k: v["verdict"] for k, v in outs.items()}
         r["replay_file"] = rp
         log(f"  native replay {h['name']}: {r['replay']}")
@@ -558,7 +614,7 @@ def write_evidence(prop, tier, seed, hs, results, arts, discharged, inconclusive
         r = results[h["name"]]
         harn.append(dict(
             harness=h["name"], functions_encoded=h["targets"], bounds=h["bounds"], oracle=h["oracle"],
-            unwind=h["unwind"], stubs=h["stubs"], flags=h["flags"], status=r["status"], reason=r["reason"],
+            unwind=h["unwind"], stubs=h["stubs"], flags=h["flags"], extra_cbmc_args=h.get("cbmc", []), status=r["status"], reason=r["reason"],
             cbmc_properties_checked=r.get("checked_properties"), vccs_generated=r["vccs"], vccs_after_simplification=r["vccs_remaining"],
             sat_variables=r["sat_vars"], sat_clauses=r["sat_clauses"], program_steps=r["steps"],
             solver_seconds=round(r["solver_s"], 2), symex_seconds=r["symex_s"], wall_seconds=round(r["wall_s"], 1),
